@@ -441,12 +441,45 @@ func runC07Restore(c *core.Ctx) *core.Violation {
 		panic(err)
 	}
 	conf.Options.SourceRdbInput = []string{in}
+	// further input files (disjoint key names), restored by their own routines at the same time (source.rdb.parallel)
+	nExtra := t.Choose(3)
+	for x := 0; x < nExtra; x++ {
+		var items []rc.Item
+		nk := 1 + t.Choose(6)
+		lastDB := -1
+		for k := 0; k < nk; k++ {
+			db := t.Choose(4)
+			if db != lastDB {
+				items = append(items, rc.Item{Kind: "selectdb", DB: uint64(db)})
+				lastDB = db
+			}
+			key := []byte(fmt.Sprintf("input%d:key:%d", x+2, k))
+			switch t.Choose(3) {
+			case 0:
+				items = append(items, rc.Item{Kind: "key", Key: key, Val: &rc.Value{Kind: rc.KString, Str: []byte(fmt.Sprintf("value-%d-%d", x, k))}, Type: rc.TString})
+			case 1:
+				items = append(items, rc.Item{Kind: "key", Key: key, Val: gen.ValueOf(t, rc.KList, 60), Type: rc.TList})
+			default:
+				items = append(items, rc.Item{Kind: "key", Key: key, Val: gen.ValueOf(t, rc.KHash, 60), Type: rc.THash})
+			}
+		}
+		file2, recs2 := rc.WriteRDB(9, items, t, true)
+		p2 := filepath.Join(c.TmpDir, fmt.Sprintf("input%d.rdb", x+2))
+		if err := os.WriteFile(p2, file2, 0644); err != nil {
+			panic(err)
+		}
+		conf.Options.SourceRdbInput = append(conf.Options.SourceRdbInput, p2)
+		fc.recs = append(fc.recs, recs2...)
+	}
+	if nExtra > 0 {
+		conf.Options.SourceRdbParallel = 1 + t.Choose(3)
+	}
 	cfg := simrt.Config{MaxSteps: 4000000, MaxSimTime: 2 * time.Hour, Trace: c.Trace}
 	if t.Choose(2) == 1 {
 		cfg.Sticky = 300 + t.Choose(650)
 	}
 	netMode := t.Choose(2)
-	c.Sample = map[string]interface{}{"sub": "restore-mode", "parallel": conf.Options.Parallel, "records": len(fc.recs), "policy": fc.policy, "target_db": fc.f.TargetDB,
+	c.Sample = map[string]interface{}{"sub": "restore-mode", "parallel": conf.Options.Parallel, "inputs": len(conf.Options.SourceRdbInput), "rdb_parallel": conf.Options.SourceRdbParallel, "records": len(fc.recs), "policy": fc.policy, "target_db": fc.f.TargetDB,
 		"filters": fmt.Sprintf("dbW=%v dbB=%v keyW=%v keyB=%v lua=%v", fc.f.DBWhite, fc.f.DBBlack, fc.f.KeyWhite, fc.f.KeyBlack, fc.f.FilterLua), "net_mode": netMode}
 	var viol *core.Violation
 	var proc *simrt.Proc
@@ -506,6 +539,9 @@ func runC07Restore(c *core.Ctx) *core.Violation {
 	if fc.f.TargetDB != -1 {
 		c.Probe("target_db")
 	}
+	if len(conf.Options.SourceRdbInput) > 1 && conf.Options.SourceRdbParallel > 1 {
+		c.Probe("several_inputs_at_once")
+	}
 	c.Nontrivial = len(fc.recs) > 0
 	return viol
 }
@@ -525,7 +561,7 @@ func init() {
 			"a failing run may end by abort, by retry-until-give-up, or by never signalling completion; only 'completion signalled although a restore failed' is a violation",
 		},
 		RealVsStub: "real: dbSync.syncRDBFile + restore workers, run.CmdRestore (real input file), utils.NewRDBLoader/RestoreRdbEntry, filter, redigo; simulated: TCP, target model with injected error replies, master model, clock, scheduling, process exit",
-		ProbeNames: []string{"parallel_gt1", "target_db", "failure_reported", "conn_reset_reported", "conn_reset_full_phase_redone"},
+		ProbeNames: []string{"parallel_gt1", "target_db", "failure_reported", "conn_reset_reported", "conn_reset_full_phase_redone", "several_inputs_at_once"},
 		FaultNames: []string{"target_error_reply", "conn_cut", "latency", "segment_split"},
 	})
 }
